@@ -165,6 +165,22 @@ def subpath_is_component_boundary(p: Prov, folder: str, target: str):
         check(implies(s == p.sep, t == f), "sep means same path")
 
 
+@lemma(props=["C13", "C12"], opaque=["nps"])
+def same_path_is_inside_itself(p: Prov, folder: str, target: str):
+    """law 6 / law 8: a target that *is* the folder -- equal after separator normalisation, up to letter case on a
+    case-insensitive provider -- is reported as inside it with the empty relative part (the separator), and as not
+    inside it when asked strictly; so is_subpath agrees with path equality and the root itself translates"""
+    f = nps(p, folder)
+    t = nps(p, target)
+    assume(f.startswith(p.sep))
+    if p.case_sensitive:
+        assume(f == t)
+    else:
+        assume(f.lower() == t.lower())
+    check(p.is_subpath(folder, target) == p.sep, "the folder itself is inside the folder, relative part empty")
+    check(p.is_subpath(folder, target, True) is False, "strictly, the folder is not inside itself")
+
+
 @lemma(props=["C13"], opaque=["nps"])
 def replace_moves_relative_part(p: Prov, x: str, f: str, g: str):
     """law 5: replacing a folder prefix moves exactly the relative part"""
